@@ -251,7 +251,8 @@ func (d *oaDoc) eval(schema any, v any, path string, errs *[]string, depth int) 
 		props, _ := s["properties"].(map[string]any)
 		if req, ok := s["required"].([]any); ok {
 			for _, r := range req {
-				if _, has := o[fmt.Sprint(r)]; !has {
+				// an explicit null member counts as absent (below): it cannot satisfy `required` either
+				if e, has := o[fmt.Sprint(r)]; !has || e == nil {
 					add("required", "member %q missing", r)
 				}
 			}
